@@ -6,8 +6,8 @@
 
    Heap:
      m_gates    one cache per measurement gate of circuit.measurements: M.result._samples and
-                M.result._frequencies.  These objects belong to the CIRCUIT and are referenced
-                by every result of that circuit;
+                M.result._frequencies.  These objects belong to the CIRCUIT; a result WRITES them
+                (for the handles returned by circuit.add) but never reads them back;
      m_results  the result objects created so far (own _probs/_samples/_frequencies, own state);
      m_final    circuit._final_state (index of the last result).
    Random draws are not modelled: every operation carries the value the implementation drew
@@ -58,35 +58,24 @@ Fixpoint update_nth {A} (i : nat) (x : A) (l : list A) : list A :=
   | y :: l', S i' => y :: update_nth i' x l'
   end.
 
-(* np.concatenate([...], axis=1) of 2-d arrays: same number of rows, else numpy raises *)
-Fixpoint zipapp (a b : list bits) : option (list bits) :=
-  match a, b with
-  | [], [] => Some []
-  | x :: a', y :: b' => option_map (cons (x ++ y)) (zipapp a' b')
-  | _, _ => None
-  end.
-Fixpoint hconcat (l : list (list bits)) : option (list bits) :=
-  match l with
-  | [] => None
-  | [a] => Some a
-  | a :: l' => match hconcat l' with Some b => zipapp a b | None => None end
-  end.
-
-Definition all_gs (gl : list gcache) : option (list (list bits)) :=
-  fold_right (fun g acc => match gs g, acc with Some s, Some l => Some (s :: l) | _, _ => None end)
-             (Some []) gl.
-
 Definition set_samples (R : result) (s : list bits) : result :=
   mkr (r_w R) (r_nshots R) (r_probs R) (Some s) (r_freqs R).
 Definition set_freqs (R : result) (f : counter) : result :=
   mkr (r_w R) (r_nshots R) (r_probs R) (r_samples R) (Some f).
 
-Definition g0_has_samples (m : machine) : bool :=
-  match m_gates m with g0 :: _ => match gs g0 with Some _ => true | None => false end | [] => false end.
+Definition has_own_samples (R : result) : bool :=
+  match r_samples R with Some _ => true | None => false end.
 
-(* the part of MeasurementOutcomes.samples that fills self._samples.
-   None = a path the model does not follow (MeasurementResult.samples recursing into
-   circuit.final_state.samples(), numpy raising); proved unreachable in ProofsResult. *)
+(* [qubits.index(q) for q in gate.target_qubits] : positions of a register's qubits among the
+   globally measured qubits, used for the views computed from the result's OWN data *)
+Definition own_cols (cfg : config) (reg : list nat) : list nat :=
+  map (fun q => index_of q (cQ cfg)) reg.
+
+(* the part of MeasurementOutcomes.samples that fills self._samples.  A result of a simulation
+   always carries self._probs, so the branch that reads the samples registered on the
+   measurement gates (`self._probs is None and measurements[0].result.has_samples()`, kept for
+   results built without probabilities, e.g. by hardware backends) is never taken for the
+   results of this machine: a result only ever WRITES the gate caches. *)
 Definition materialise (cfg : config) (m : machine) (r : nat) (draw : list nat) : option machine :=
   match nth_error (m_results m) r with
   | None => None
@@ -94,17 +83,6 @@ Definition materialise (cfg : config) (m : machine) (r : nat) (draw : list nat) 
     match r_samples R with
     | Some _ => Some m
     | None =>
-      if g0_has_samples m then
-        (* self._samples = concatenate([gate.result.samples() for gate in measurements], axis=1) *)
-        match all_gs (m_gates m) with
-        | None => None
-        | Some l =>
-            match hconcat l with
-            | None => None
-            | Some sm => Some (mkm (m_gates m) (update_nth r (set_samples R sm) (m_results m)) (m_final m))
-            end
-        end
-      else
         (* draw = sample_shots(self._probs, nshots), or the shuffled expansion of self._frequencies *)
         let sm := map (to_bin (ck cfg)) draw in
         let Q := cQ cfg in
@@ -113,9 +91,6 @@ Definition materialise (cfg : config) (m : machine) (r : nat) (draw : list nat) 
                   (update_nth r (set_samples R sm) (m_results m)) (m_final m))
     end
   end.
-
-Definition opt_all {A} (l : list (option A)) : option (list A) :=
-  fold_right (fun x acc => match x, acc with Some a, Some t => Some (a :: t) | _, _ => None end) (Some []) l.
 
 Definition step_samples (cfg : config) (m : machine) (r : nat) (binary registers : bool)
            (draw : list nat) : machine * out :=
@@ -127,27 +102,14 @@ Definition step_samples (cfg : config) (m : machine) (r : nat) (binary registers
       match r_samples R1 with
       | Some sm =>
         if registers then
-          (* {gate.register_name: gate.result.samples(binary)} *)
-          match all_gs (m_gates m1) with
-          | Some l => (m1, if binary then ORegSamplesBin l else ORegSamplesDec (map (map to_dec) l))
-          | None => (m1, OErr 2)
-          end
+          (* {gate.register_name: self._register_samples(gate, binary)} : columns of own samples *)
+          let l := map (fun reg => map (take_cols (own_cols cfg reg)) sm) (c_regs cfg) in
+          (m1, if binary then ORegSamplesBin l else ORegSamplesDec (map (map to_dec) l))
         else (m1, if binary then OSamplesBin sm else OSamplesDec (map to_dec sm))
       | None => (m1, OErr 3)
       end
     | None => (m1, OErr 4)
     end
-  end.
-
-(* gate.result.frequencies(binary) for every gate, caching into gate.result._frequencies *)
-Definition gate_freq (g : gcache) : option (gcache * counter) :=
-  match gf g with
-  | Some f => Some (g, f)
-  | None =>
-      match gs g with
-      | Some s => let f := calc_freq (map to_dec s) in Some (mkg (gs g) (Some f), f)
-      | None => None
-      end
   end.
 
 Definition step_freqs (cfg : config) (m : machine) (r : nat) (binary registers : bool)
@@ -157,56 +119,37 @@ Definition step_freqs (cfg : config) (m : machine) (r : nat) (binary registers :
   | Some R =>
     let k := ck cfg in
     (* fill self._frequencies *)
-    let m1o :=
+    let m1 :=
       match r_freqs R with
-      | Some _ => Some m
+      | Some _ => m
       | None =>
-        if g0_has_samples m || (match r_samples R with Some _ => true | None => false end) then
-          (* calculate_frequencies(self.samples(binary=False)) *)
-          match materialise cfg m r [] with
-          | None => None
-          | Some m' =>
-            match nth_error (m_results m') r with
-            | Some R' =>
-              match r_samples R' with
-              | Some sm => Some (mkm (m_gates m')
-                                    (update_nth r (set_freqs R' (calc_freq (map to_dec sm))) (m_results m'))
-                                    (m_final m'))
-              | None => None
-              end
-            | None => None
-            end
-          end
-        else
-          (* fdraw = sample_frequencies(self._probs, nshots); the rfreqs loop registers the
-             projections on every gate *)
-          let Q := cQ cfg in
-          Some (mkm (map (fun rg => mkg (gs (snd rg)) (Some (reg_freq k (reg_cols Q (fst rg)) fdraw)))
-                         (combine (c_regs cfg) (m_gates m)))
-                    (update_nth r (set_freqs R fdraw) (m_results m)) (m_final m))
-      end in
-    match m1o with
-    | None => (m, OErr 1)
-    | Some m1 =>
-      match nth_error (m_results m1) r with
-      | Some R1 =>
-        match r_freqs R1 with
-        | Some F =>
-          if registers then
-            match opt_all (map gate_freq (m_gates m1)) with
-            | Some gl =>
-                let m2 := mkm (map fst gl) (m_results m1) (m_final m1) in
-                (m2, if binary
-                     then ORegFreqBin (map (fun rf => fbin (length (fst rf)) (snd rf))
-                                           (combine (c_regs cfg) (map snd gl)))
-                     else ORegFreqDec (map snd gl))
-            | None => (m1, OErr 2)
-            end
-          else (m1, if binary then OFreqBin (fbin k F) else OFreqDec F)
-        | None => (m1, OErr 3)
+        match r_samples R with
+        | Some sm =>
+            (* has_samples(): calculate_frequencies(self.samples(binary=False)) *)
+            mkm (m_gates m) (update_nth r (set_freqs R (calc_freq (map to_dec sm))) (m_results m)) (m_final m)
+        | None =>
+            (* fdraw = sample_frequencies(self._probs, nshots); the rfreqs loop registers the
+               projections on every gate (written, never read back by a result) *)
+            let Q := cQ cfg in
+            mkm (map (fun rg => mkg (gs (snd rg)) (Some (reg_freq k (reg_cols Q (fst rg)) fdraw)))
+                     (combine (c_regs cfg) (m_gates m)))
+                (update_nth r (set_freqs R fdraw) (m_results m)) (m_final m)
         end
-      | None => (m1, OErr 4)
+      end in
+    match nth_error (m_results m1) r with
+    | Some R1 =>
+      match r_freqs R1 with
+      | Some F =>
+        if registers then
+          (* {gate.register_name: self._register_frequencies(gate, binary)} : own frequencies *)
+          let l := map (fun reg => reg_freq k (own_cols cfg reg) F) (c_regs cfg) in
+          (m1, if binary
+               then ORegFreqBin (map (fun rf => fbin (length (fst rf)) (snd rf)) (combine (c_regs cfg) l))
+               else ORegFreqDec l)
+        else (m1, if binary then OFreqBin (fbin k F) else OFreqDec F)
+      | None => (m1, OErr 3)
       end
+    | None => (m1, OErr 4)
     end
   end.
 
@@ -256,13 +199,12 @@ Definition oracle_ok (cfg : config) (m : machine) (o : op) : bool :=
         match r_samples R with
         | Some _ => true
         | None =>
-          if g0_has_samples m then true
-          else match r_freqs R with
-               | Some F => (* np.random.shuffle returns a permutation of its input *)
-                   forallb (fun v => count draw v =? count (expand F) v) (draw ++ expand F)
-               | None => (* np.random.choice: nshots values of non-zero probability *)
-                   (length draw =? r_nshots R) && forallb (in_support k (r_probs R)) draw
-               end
+          match r_freqs R with
+          | Some F => (* np.random.shuffle returns a permutation of its input *)
+              forallb (fun v => count draw v =? count (expand F) v) (draw ++ expand F)
+          | None => (* np.random.choice: nshots values of non-zero probability *)
+              (length draw =? r_nshots R) && forallb (in_support k (r_probs R)) draw
+          end
         end
       end
   | Freqs r _ _ fdraw =>
@@ -272,7 +214,7 @@ Definition oracle_ok (cfg : config) (m : machine) (o : op) : bool :=
         match r_freqs R with
         | Some _ => true
         | None =>
-          if g0_has_samples m || (match r_samples R with Some _ => true | None => false end) then true
+          if has_own_samples R then true
           else (* sample_frequencies: a Counter of positive counts over the support, total nshots *)
             nodupb (keys fdraw) && (total fdraw =? r_nshots R) &&
             forallb (fun p => in_support k (r_probs R) (fst p) && (0 <? snd p)) fdraw
